@@ -189,8 +189,15 @@ func runC12(seed uint64, ncases int, outPath string, replaySeed uint64, hasRepla
 
 	payloads := [][]byte{{0, 0, 0, 0, 0, 0, 0, 0}, {0xff, 0xff, 0xff, 0xff, 0xff, 0xff, 0xff, 0xff}, {0x12, 0x34, 0x56, 0x78, 0x9a, 0xbc, 0xde, 0xf0}, nil}
 
+	budget := time.Duration(envInt("VERIF_BUDGET_S", 100000)) * time.Second
+	started := time.Now()
 	for ci := 0; ci < ncases; ci++ {
 		cseed := master.next()
+		if time.Since(started) > budget {
+			st.hist["budget-exhausted"] = 1
+			break
+		}
+		out.Flush()
 		if hasReplay {
 			cseed = replaySeed
 		}
@@ -252,7 +259,7 @@ func runC12(seed uint64, ncases int, outPath string, replaySeed uint64, hasRepla
 				case o.err != nil:
 					st.fail("c12-load-error:"+errClass(o.err), fmt.Sprintf("LoadNetwork(%s) refuses what SaveNetwork wrote: %v", eid, o.err), size, replay)
 				default:
-					gotSX, _ := dumpNet(o.net)
+					gotSX, _ := dumpLoadedNet(o.net)
 					if d := Diff("", Canon(origSX), Canon(gotSX)); d != "" {
 						st.fail("c12-roundtrip:"+diffClass(d), fmt.Sprintf("save/load (%s) changes the network: original vs loaded differ at %s", eid, d), size, replay)
 					}
@@ -284,7 +291,7 @@ func runC12(seed uint64, ncases int, outPath string, replaySeed uint64, hasRepla
 						if o.err != nil {
 							fmt.Fprintf(out, "L %s %s (err)\n", id, eid)
 						} else {
-							gotSX, _ := dumpNet(o.net)
+							gotSX, _ := dumpLoadedNet(o.net)
 							fmt.Fprintf(out, "L %s %s (ok %s)\n", id, eid, gotSX.String())
 						}
 					}
@@ -295,7 +302,78 @@ func runC12(seed uint64, ncases int, outPath string, replaySeed uint64, hasRepla
 			break
 		}
 	}
+	if !hasReplay {
+		outOfDomain(st)
+	}
 	writeSummary(outPath+".summary", st)
+}
+
+// outOfDomain builds, for each exclusion of the model's in_domain, a small network through the public API that
+// violates exactly that one, and reports whether save + load (wire) reproduces it.  The save format cannot carry
+// these values (uint32 / int32 fields, a zero field reads as absent): the failures are recorded findings.
+func outOfDomain(st *c12Stats) {
+	type ood struct {
+		kind  string
+		build func() *acmelib.Network
+	}
+	base := func() (*acmelib.Network, *acmelib.Bus, *acmelib.Message) {
+		n := acmelib.NewNetwork("ood")
+		b := acmelib.NewBus("bus")
+		n.AddBus(b)
+		nd := acmelib.NewNode("node", 1, 1)
+		b.AddNodeInterface(nd.Interfaces()[0])
+		m := acmelib.NewMessage("msg", 1, 8)
+		nd.Interfaces()[0].AddSentMessage(m)
+		return n, b, m
+	}
+	cases := []ood{
+		{"int-beyond-int32", func() *acmelib.Network {
+			n, b, _ := base()
+			a, _ := acmelib.NewIntegerAttribute("att", 0, 0, 1<<40)
+			b.AssignAttribute(a, 1<<35)
+			return n
+		}},
+		{"int-beyond-uint32", func() *acmelib.Network {
+			n, b, _ := base()
+			b.SetBaudrate(1 << 40)
+			return n
+		}},
+		{"enum-min-size-zero", func() *acmelib.Network {
+			n, _, m := base()
+			e := acmelib.NewSignalEnum("enum")
+			e.SetMinSize(0)
+			s, _ := acmelib.NewEnumSignal("sig", e)
+			m.AppendSignal(s)
+			return n
+		}},
+		{"start-value-negative-zero", func() *acmelib.Network {
+			n, _, m := base()
+			s, _ := acmelib.NewStandardSignal("sig", acmelib.NewFlagSignalType("flag"))
+			s.SetStartValue(math.Copysign(0, -1))
+			m.AppendSignal(s)
+			return n
+		}},
+	}
+	for _, c := range cases {
+		n := c.build()
+		st.evaluations++
+		st.hist["out-of-domain-"+c.kind]++
+		var buf bytes.Buffer
+		if err := acmelib.SaveNetwork(n, acmelib.SaveEncodingWire, &buf, nil, nil); err != nil {
+			st.fail("c12-domain-save-error:"+c.kind, fmt.Sprintf("SaveNetwork fails on the out-of-domain network (%s): %v", c.kind, err), 0, "ood:"+c.kind)
+			continue
+		}
+		o := guardedLoad(buf.Bytes(), acmelib.SaveEncodingWire, 20*time.Second)
+		if o.panicV != nil || o.hang || o.err != nil {
+			st.fail("c12-domain-load-failure:"+c.kind, fmt.Sprintf("LoadNetwork fails on the save of the out-of-domain network (%s): %v %v", c.kind, o.err, o.panicV), 0, "ood:"+c.kind)
+			continue
+		}
+		a, _ := dumpNet(n)
+		g, _ := dumpLoadedNet(o.net)
+		if d := Diff("", Canon(a), Canon(g)); d != "" {
+			st.fail("c12-domain:"+c.kind, fmt.Sprintf("value outside the ranges of the save format is not reproduced (%s): %s", c.kind, d), 0, "ood:"+c.kind)
+		}
+	}
 }
 
 func saveWith(n *acmelib.Network, enc acmelib.SaveEncoding, a, b, c io.Writer) error {
